@@ -5,6 +5,8 @@ rows = []
 for d in sorted(glob.glob("/verif/seeded/C*-m*")):
     m = json.load(open(d + "/meta.json"))
     c = m.get("confirmed", {})
+    if os.path.exists(d + "/suite.json"):
+        c["existing_suite_passes"] = json.load(open(d + "/suite.json")).get("existing_suite_passes")
     rows.append((os.path.basename(d), m.get("property"), m.get("summary", "").replace("|", "/").replace("\n", " ")[:230],
                  m.get("needs", "").replace("|", "/").replace("\n", " ")[:230],
                  "yes" if c.get("demo_passes_without") and c.get("demo_fails_with") else "NO",
